@@ -25,7 +25,7 @@ STRATA = [
     ("default-mode", 12, 120),
     ("reduce", 0, 3),
     ("reduce-planted", 6, 64),
-    ("long-run", 4, 32),
+    ("long-run", 2, 32),
     ("suite", 0, 1),
 ]
 REQUIRED_EVENTS = {"any": ["l2.reduce_db-above-threshold", "l2.learned-vs-known-model", "c02.verdict-checked", "c02.budget-counters-read", "l2.analyze", "sat.restarts",
